@@ -12,3 +12,9 @@ PBT_PROPERTY(btree_invariants) { verif::bt::run_property(src, false); }
 // and element ledgers after every mutating call; configurations C02_btree_cfga_*.cpp (+ C02_btree_cfgat_*.cpp), including tlx::BTree
 // used directly.
 PBT_PROPERTY(btree_alias_invariants) { verif::bt::run_alias_property(src, false); }
+
+// API-audit classes: public members / overloads / iterator types / value categories that no other target calls (operator[], writes
+// through iterators, iterator-flavour conversions, std iterator algorithms, key_comp / value_comp / max_size / get_allocator /
+// get_stats, ranges through input iterators / pointers / list / deque iterators / convertible element types, empty ranges,
+// (cmp, alloc) constructor forms, rvalue copy arguments, generic std::swap), see run_api_property in C01_btree_history.cpp.
+PBT_PROPERTY(btree_api_invariants) { verif::bt::run_api_property(src, false); }
